@@ -549,6 +549,11 @@ func (wf *Workflow[I, O]) compile(ctx context.Context, options *graphCompileOpti
 	// a branch is handed to the graph once: a Compile that fails later on (or a second Compile) must not
 	// add it again
 	for len(wf.workflowBranches) > 0 {
+		if wf.g.compiled {
+			// a branch declared after a successful Compile: refused like an input or a static value declared
+			// then, and reported by every later Compile (the branch stays queued, it is never added)
+			return nil, ErrGraphCompiled
+		}
 		wb := wf.workflowBranches[0]
 		for endNode := range wb.endNodes {
 			if endNode == END {
